@@ -338,7 +338,7 @@ int main(int argc, char **argv)
 	vp_counter_add("nontrivial", nontriv);
 	vp_counter_add("polls", polls);
 	vp_counter_add("true_rechecks", rechecks);
-	vp_counter_add("traffic_callbacks", traffic_cbs);
+	vp_counter_add("traffic_callbacks", __atomic_load_n(&traffic_cbs, __ATOMIC_RELAXED));
 #if !(VP_ASAN || VP_TSAN)
 	vp_quar_drain(&quar);
 #endif
